@@ -26,10 +26,12 @@ import (
 	"runtime/debug"
 	"strings"
 	"sync"
+	"sync/atomic"
 	"testing"
 
 	"github.com/tetratelabs/wazero"
 	"github.com/tetratelabs/wazero/api"
+	"github.com/tetratelabs/wazero/experimental"
 	"pgregory.net/rapid"
 
 	"verif/internal/evid"
@@ -67,6 +69,15 @@ type Case struct {
 	// NoTail leaves out the echo_tail form (set by the generator for the class of a reproduced
 	// known finding).
 	NoTail bool `json:"no_tail,omitempty"`
+	// Listener: "" none, "all" a FunctionListenerFactory returning a listener for every function,
+	// "nil" a factory returning nil; it is in the context used for compiling, instantiating and calling.
+	Listener string `json:"listener,omitempty"`
+	// Fleet > 1: the host module holds Fleet functions; the function under test is the Pos-th one
+	// (order of Export), the others are self-identifying pad functions of mixed styles and
+	// signatures; the guest also imports the pad functions at positions Probes and calls them.
+	Fleet  int   `json:"fleet,omitempty"`
+	Pos    int   `json:"pos,omitempty"`
+	Probes []int `json:"probes,omitempty"`
 }
 
 var styles = []string{"reflect", "reflect-ctx", "reflect-mod", "gofunc", "gomodfunc"}
@@ -200,6 +211,19 @@ func buildGuest(c Case) []byte {
 		}
 		return b
 	}
+	padIdx := map[int]uint32{}
+	for _, j := range c.Probes { // all imports before the first AddFunc
+		pp, pr := padSig(j)
+		padIdx[j] = m.ImportFunc("host", fmt.Sprintf("p%d", j), vts(pp), vts(pr))
+	}
+	for _, j := range c.Probes {
+		pp, pr := padSig(j)
+		b := wasmenc.NewB()
+		for i := range pp {
+			b.LocalGet(uint32(i))
+		}
+		m.ExportFunc(fmt.Sprintf("pad_%d", j), m.AddFunc(vts(pp), vts(pr), nil, b.Call(padIdx[j]).Bytes()))
+	}
 	m.ExportFunc("echo", m.AddFunc(P, R, nil, params(wasmenc.NewB()).Call(host).Bytes()))
 	m.ExportFunc("id", m.AddFunc(P, P, nil, params(wasmenc.NewB()).Bytes()))
 	// the same forwarding through call_indirect and through a tail call. (Re-exporting the
@@ -249,6 +273,7 @@ type hostState struct {
 	cur      *Vec
 	cb       int // 0: none, 1: call id back with Call, 2: with CallWithStack
 	calls    [][]uint64
+	padCalls []padCall
 	problems []string
 	dirtyIn  int
 }
@@ -468,6 +493,107 @@ func apiTypes(s string) []api.ValueType {
 	return r
 }
 
+// ---------------------------------------------------------------- listeners and pad functions
+
+type countingListener struct{ before, after, abort atomic.Int64 }
+
+func (l *countingListener) Before(_ context.Context, _ api.Module, _ api.FunctionDefinition, params []uint64, _ experimental.StackIterator) {
+	l.before.Add(int64(1 + len(params)*0))
+}
+func (l *countingListener) After(context.Context, api.Module, api.FunctionDefinition, []uint64) {
+	l.after.Add(1)
+}
+func (l *countingListener) Abort(context.Context, api.Module, api.FunctionDefinition, error) {
+	l.abort.Add(1)
+}
+
+// listenerCtx puts the case's listener factory (if any) into the context.
+func listenerCtx(ctx context.Context, kind string) context.Context {
+	switch kind {
+	case "all":
+		l := &countingListener{}
+		return experimental.WithFunctionListenerFactory(ctx, experimental.FunctionListenerFactoryFunc(func(api.FunctionDefinition) experimental.FunctionListener { return l }))
+	case "nil":
+		return experimental.WithFunctionListenerFactory(ctx, experimental.FunctionListenerFactoryFunc(func(api.FunctionDefinition) experimental.FunctionListener { return nil }))
+	}
+	return ctx
+}
+
+// pad functions: position j in the host module decides style and signature; every pad function
+// records its own id with the values it received and returns values derived from its id and them.
+var padSigs = [][2]string{{"i", "i"}, {"II", "I"}, {"", "iI"}, {"Fi", "Ii"}, {"I", "IIi"}}
+
+func padSig(j int) (string, string) { s := padSigs[(j/5)%len(padSigs)]; return s[0], s[1] }
+func padStyle(j int) string         { return styles[j%len(styles)] }
+
+func padResults(j int, R string, args []uint64) []uint64 {
+	r := make([]uint64, len(R))
+	for i := range r {
+		r[i] = canon(R[i], mix(append([]uint64{0xfad, uint64(j), uint64(i)}, args...)...))
+	}
+	return r
+}
+
+type padCall struct {
+	id   int
+	args []uint64
+}
+
+// addPad defines pad function j on the builder.
+func (h *hostState) addPad(b wazero.HostModuleBuilder, j int) {
+	P, R := padSig(j)
+	record := func(args []uint64) []uint64 {
+		h.padCalls = append(h.padCalls, padCall{j, args})
+		return padResults(j, R, args)
+	}
+	stackFn := func(stack []uint64) {
+		args := make([]uint64, len(P))
+		for i := range args {
+			args[i] = canon(P[i], stack[i])
+		}
+		res := record(args)
+		if len(stack) < len(res) {
+			h.problem("pad host function %d got a stack of %d slots for %d results", j, len(stack), len(res))
+			return
+		}
+		copy(stack, res)
+	}
+	fb := b.NewFunctionBuilder()
+	switch st := padStyle(j); st {
+	case "gofunc":
+		fb = fb.WithGoFunction(api.GoFunc(func(_ context.Context, stack []uint64) { stackFn(stack) }), apiTypes(P), apiTypes(R))
+	case "gomodfunc":
+		fb = fb.WithGoModuleFunction(api.GoModuleFunc(func(_ context.Context, _ api.Module, stack []uint64) { stackFn(stack) }), apiTypes(P), apiTypes(R))
+	default:
+		var in, out []reflect.Type
+		skip := 0
+		if st == "reflect-ctx" {
+			in, skip = append(in, ctxType), 1
+		} else if st == "reflect-mod" {
+			in, skip = append(in, ctxType, modType), 2
+		}
+		for i := range P {
+			in = append(in, goType(P[i], "su"[(j+i)%2]))
+		}
+		for i := range R {
+			out = append(out, goType(R[i], "us"[(j+i)%2]))
+		}
+		fb = fb.WithFunc(reflect.MakeFunc(reflect.FuncOf(in, out, false), func(a []reflect.Value) []reflect.Value {
+			args := make([]uint64, len(P))
+			for i := range args {
+				args[i] = bitsOf(a[skip+i])
+			}
+			res := record(args)
+			rv := make([]reflect.Value, len(out))
+			for i := range out {
+				rv[i] = valueOf(out[i], res[i])
+			}
+			return rv
+		}).Interface())
+	}
+	fb.Export(fmt.Sprintf("p%d", j))
+}
+
 // ---------------------------------------------------------------- execution
 
 type failure struct{ msg string }
@@ -493,6 +619,19 @@ func valid(c Case) bool {
 		if len(v.Args) != len(c.P) || len(v.Res) != len(c.R) {
 			return false
 		}
+	}
+	if c.Listener != "" && c.Listener != "all" && c.Listener != "nil" {
+		return false
+	}
+	if c.Fleet < 0 || c.Fleet > 4096 || c.Pos < 0 || (c.Fleet > 1 && c.Pos >= c.Fleet) || (c.Fleet <= 1 && (c.Pos != 0 || len(c.Probes) > 0)) || len(c.Probes) > 32 {
+		return false
+	}
+	seen := map[int]bool{}
+	for _, j := range c.Probes {
+		if j < 0 || j >= c.Fleet || j == c.Pos || seen[j] {
+			return false
+		}
+		seen[j] = true
 	}
 	return true
 }
@@ -526,29 +665,46 @@ func runCase(c Case) (f *failure, st runStats) {
 	rt := wazero.NewRuntimeWithConfig(bg, wz.Config(c.Engine))
 	defer rt.Close(bg)
 	h := &hostState{c: c}
-	fb := rt.NewHostModuleBuilder("host").NewFunctionBuilder()
-	switch c.Style {
-	case "gofunc":
-		fb = fb.WithGoFunction(api.GoFunc(func(ctx context.Context, stack []uint64) { h.stackFn(ctx, nil, stack) }), apiTypes(c.P), apiTypes(c.R))
-	case "gomodfunc":
-		fb = fb.WithGoModuleFunction(api.GoModuleFunc(func(ctx context.Context, mod api.Module, stack []uint64) {
-			if mod == nil {
-				h.problem("GoModuleFunction received a nil api.Module")
-			}
-			h.stackFn(ctx, mod, stack)
-		}), apiTypes(c.P), apiTypes(c.R))
-	default:
-		fb = fb.WithFunc(h.reflectFn())
+	lctx := listenerCtx(bg, c.Listener)
+	hb := rt.NewHostModuleBuilder("host")
+	nfn := c.Fleet
+	if nfn < 1 {
+		nfn = 1
 	}
-	if _, err := fb.Export("f").Instantiate(bg); err != nil {
-		return failf("%s: the builder rejected the host function: %v", describe(c), err), st
+	for j := 0; j < nfn; j++ {
+		if j != c.Pos {
+			h.addPad(hb, j)
+			continue
+		}
+		fb := hb.NewFunctionBuilder()
+		switch c.Style {
+		case "gofunc":
+			fb = fb.WithGoFunction(api.GoFunc(func(ctx context.Context, stack []uint64) { h.stackFn(ctx, nil, stack) }), apiTypes(c.P), apiTypes(c.R))
+		case "gomodfunc":
+			fb = fb.WithGoModuleFunction(api.GoModuleFunc(func(ctx context.Context, mod api.Module, stack []uint64) {
+				if mod == nil {
+					h.problem("GoModuleFunction received a nil api.Module")
+				}
+				h.stackFn(ctx, mod, stack)
+			}), apiTypes(c.P), apiTypes(c.R))
+		default:
+			fb = fb.WithFunc(h.reflectFn())
+		}
+		fb.Export("f")
 	}
-	guest, err := rt.InstantiateWithConfig(bg, buildGuest(c), wazero.NewModuleConfig().WithName("guest"))
+	if _, err := hb.Instantiate(lctx); err != nil {
+		return failf("%s: the builder rejected the host module: %v", describe(c), err), st
+	}
+	gcm, err := rt.CompileModule(lctx, buildGuest(c))
+	var guest api.Module
+	if err == nil {
+		guest, err = rt.InstantiateModule(lctx, gcm, wazero.NewModuleConfig().WithName("guest"))
+	}
 	if err != nil {
 		return failf("%s: guest module importing the host function was rejected: %v", describe(c), strings.SplitN(err.Error(), "\n", 2)[0]), st
 	}
 	h.guest = guest
-	ctx := context.WithValue(bg, ctxKey{}, "c08")
+	ctx := context.WithValue(lctx, ctxKey{}, "c08")
 	np, nr := len(c.P), len(c.R)
 
 	// call invokes an export either with Call or with CallWithStack.
@@ -581,7 +737,12 @@ func runCase(c Case) (f *failure, st runStats) {
 		return "Call"
 	}
 	hostSaw := func(what string, want []uint64) *failure {
-		defer func() { h.calls = nil; h.problems = nil }()
+		defer func() { h.calls = nil; h.problems = nil; h.padCalls = nil }()
+		if len(h.padCalls) > 0 {
+			pp, pr := padSig(h.padCalls[0].id)
+			return failf("%s: %s: host function #%d of the host module (%s %q->%q) ran with %s although the guest called function #%d", describe(c), what,
+				h.padCalls[0].id, padStyle(h.padCalls[0].id), pp, pr, fmtVals(pp, h.padCalls[0].args), c.Pos)
+		}
 		if len(h.problems) > 0 {
 			return failf("%s: %s: %s", describe(c), what, h.problems[0])
 		}
@@ -665,6 +826,39 @@ func runCase(c Case) (f *failure, st runStats) {
 				}
 			}
 		}
+		// pad functions at other positions of the same host module
+		for pi, j := range c.Probes {
+			pp, pr := padSig(j)
+			pargs := make([]uint64, len(pp))
+			for i := range pargs {
+				pargs[i] = canon(pp[i], mix(0xa46, uint64(vi), uint64(j), uint64(i)))
+			}
+			ws := (pi+vi)%2 == 1
+			what := fmt.Sprintf("vector %d: host function #%d of %d in the host module (%s %q->%q) called through the guest via %s", vi, j, c.Fleet, padStyle(j), pp, pr, form(ws))
+			res, err := call(fmt.Sprintf("pad_%d", j), ws, pargs, len(pr))
+			calls, fcalls, probs := h.padCalls, h.calls, h.problems
+			h.padCalls, h.calls, h.problems = nil, nil, nil
+			if err != nil {
+				return failf("%s: %s failed: %v", describe(c), what, firstLine(err)), st
+			}
+			if len(probs) > 0 {
+				return failf("%s: %s: %s", describe(c), what, probs[0]), st
+			}
+			if len(fcalls) > 0 {
+				return failf("%s: %s: the function under test (#%d) ran instead, with %s", describe(c), what, c.Pos, fmtVals(c.P, fcalls[0])), st
+			}
+			if len(calls) != 1 || calls[0].id != j {
+				return failf("%s: %s: host-side record is %+v, expected exactly one call of #%d", describe(c), what, calls, j), st
+			}
+			for i := range pargs {
+				if calls[0].args[i] != pargs[i] {
+					return failf("%s: %s: it received %s, the guest passed %s", describe(c), what, fmtVals(pp, calls[0].args), fmtVals(pp, pargs)), st
+				}
+			}
+			if f := sameRes(what+": results", pr, res, padResults(j, pr, pargs)); f != nil {
+				return f, st
+			}
+		}
 		// kcall: constants -> host -> compared in the guest
 		res, err := call(fmt.Sprintf("kcall_%d", vi), false, nil, 1)
 		if err != nil {
@@ -744,6 +938,12 @@ func describe(c Case) string {
 	if isReflect(c.Style) {
 		g = fmt.Sprintf(" go-types(params=%s results=%s)", c.PGo, c.RGo)
 	}
+	if c.Listener != "" {
+		g += " listener=" + c.Listener
+	}
+	if c.Fleet > 1 {
+		g += fmt.Sprintf(" host-module-functions=%d position=%d", c.Fleet, c.Pos)
+	}
 	return fmt.Sprintf("{engine=%s style=%s params=%q results=%q%s}", c.Engine, c.Style, c.P, c.R, g)
 }
 
@@ -764,6 +964,8 @@ type ConcCase struct {
 	G      int    `json:"goroutines"`
 	N      int    `json:"calls"`
 	Seed   uint64 `json:"seed"`
+	// Listener: as in Case.
+	Listener string `json:"listener,omitempty"`
 }
 
 func mix(a ...uint64) uint64 {
@@ -874,11 +1076,11 @@ func (h *concHost) reflectFn() any {
 }
 
 func (c ConcCase) describe() string {
-	return fmt.Sprintf("{engine=%s style=%s params=%q results=%q go-types(%s/%s) goroutines=%d calls=%d}", c.Engine, c.Style, c.P, c.R, c.PGo, c.RGo, c.G, c.N)
+	return fmt.Sprintf("{engine=%s style=%s params=%q results=%q go-types(%s/%s) goroutines=%d calls=%d listener=%q}", c.Engine, c.Style, c.P, c.R, c.PGo, c.RGo, c.G, c.N, c.Listener)
 }
 
 func validConc(c ConcCase) bool {
-	return valid(Case{Engine: c.Engine, Style: c.Style, P: c.P, R: c.R}) && c.G >= 1 && c.G <= 64 && c.N >= 1 && c.N <= 1<<20
+	return valid(Case{Engine: c.Engine, Style: c.Style, P: c.P, R: c.R, Listener: c.Listener}) && c.G >= 1 && c.G <= 64 && c.N >= 1 && c.N <= 1<<20
 }
 
 func runConc(c ConcCase) (f *failure) {
@@ -918,16 +1120,17 @@ func runConc(c ConcCase) (f *failure) {
 	default:
 		fb = fb.WithFunc(h.reflectFn())
 	}
-	if _, err := fb.Export("f").Instantiate(bg); err != nil {
+	lctx := listenerCtx(bg, c.Listener)
+	if _, err := fb.Export("f").Instantiate(lctx); err != nil {
 		return failf("%s: the builder rejected the host function: %v", c.describe(), err)
 	}
-	cm, err := rt.CompileModule(bg, buildGuest(Case{P: c.P, R: c.R}))
+	cm, err := rt.CompileModule(lctx, buildGuest(Case{P: c.P, R: c.R}))
 	if err != nil {
 		return failf("%s: guest module rejected: %v", c.describe(), firstLine(err))
 	}
 	fns := make([]api.Function, c.G)
 	for g := range fns {
-		mod, err := rt.InstantiateModule(bg, cm, wazero.NewModuleConfig().WithName(""))
+		mod, err := rt.InstantiateModule(lctx, cm, wazero.NewModuleConfig().WithName(""))
 		if err != nil {
 			return failf("%s: instantiating guest %d failed: %v", c.describe(), g, firstLine(err))
 		}
@@ -954,10 +1157,10 @@ func runConc(c ConcCase) (f *failure) {
 				var res []uint64
 				var err error
 				if (n+g)%2 == 0 {
-					res, err = fns[g].Call(bg, a...)
+					res, err = fns[g].Call(lctx, a...)
 				} else {
 					copy(stack, a)
-					err = fns[g].CallWithStack(bg, stack)
+					err = fns[g].CallWithStack(lctx, stack)
 					res = stack[:nres]
 				}
 				if err != nil {
@@ -1006,6 +1209,7 @@ func genConc(t *rapid.T) ConcCase {
 	c.G = rapid.IntRange(2, 8).Draw(t, "goroutines")
 	c.N = rapid.SampledFrom([]int{50, 200, 200, 600}).Draw(t, "calls")
 	c.Seed = rapid.Uint64().Draw(t, "seed")
+	c.Listener = rapid.SampledFrom([]string{"", "", "all", "nil"}).Draw(t, "listener")
 	return c
 }
 
@@ -1259,6 +1463,29 @@ func genCase(t *rapid.T) Case {
 		}
 		c.Vecs = append(c.Vecs, v)
 	}
+	c.Listener = rapid.SampledFrom([]string{"", "", "all", "all", "nil"}).Draw(t, "listener")
+	if rapid.IntRange(0, 13).Draw(t, "fleet") == 0 {
+		// many host functions in one host module; positions around the byte/word boundaries
+		c.Fleet = rapid.IntRange(300, 700).Draw(t, "fleet-size")
+		pos := func(label string) int {
+			p := rapid.SampledFrom([]int{0, 1, 254, 255, 256, 257, 258, 299, 511, 512, 513, c.Fleet - 1, -1, -1, -1}).Draw(t, label)
+			if p < 0 || p >= c.Fleet {
+				p = rapid.IntRange(0, c.Fleet-1).Draw(t, label+"-any")
+			}
+			return p
+		}
+		c.Pos = pos("pos")
+		seen := map[int]bool{c.Pos: true}
+		for i, n := 0, rapid.IntRange(2, 6).Draw(t, "nprobes"); i < n; i++ {
+			if p := pos("probe"); !seen[p] {
+				seen[p] = true
+				c.Probes = append(c.Probes, p)
+			}
+		}
+		if len(c.Vecs) > 2 {
+			c.Vecs = c.Vecs[:2]
+		}
+	}
 	return c
 }
 
@@ -1302,6 +1529,18 @@ func labelsOf(c Case, st runStats) (bool, []string) {
 	}
 	if count(c.R, "fF") >= 3 {
 		l = append(l, "results>=3-float-class")
+	}
+	if c.Listener != "" {
+		l = append(l, "listener-"+c.Listener)
+		if len(c.R) > len(c.P) {
+			l = append(l, "listener-and-more-results-than-params")
+		}
+	}
+	if c.Fleet > 1 {
+		l = append(l, "host-module-with-300-700-functions")
+		if c.Pos >= 256 {
+			l = append(l, "function-under-test-at-position>=256")
+		}
 	}
 	if len(c.P) == 0 {
 		l = append(l, "no-params")
